@@ -172,6 +172,14 @@ class OdxLinkDatabase:
     def __init__(self) -> None:
         self._db: Dict[OdxDocFragment, Dict[str, Any]] = {}
 
+    def __copy__(self) -> "OdxLinkDatabase":
+        # the per document fragment dictionaries must not be shared
+        # between the original and the copy, else adding objects to
+        # the copy also adds them to the original
+        result = OdxLinkDatabase()
+        result._db = {doc_frag: dict(frag_db) for doc_frag, frag_db in self._db.items()}
+        return result
+
     @overload
     def resolve(self, ref: OdxLinkRef, expected_type: None = None) -> Any:
         ...
